@@ -7,6 +7,18 @@ claimed = {
    text="Seeded schedule search: the real par.Work code runs on real goroutines that a deterministic scheduler releases one seam at a time (every Mutex/Cond operation, goroutine start, and yields inside f); oracle = exactly-once / <=n in progress / Do returns only at quiescence with the whole reachable item set processed / no deadlock, no step-cap. Sampling of interleavings and item graphs, not enumeration.",
    note="Trusted: the scheduler and the simulated sync.Mutex/sync.Cond (verif/sim/sync) faithfully model Go's (no spurious wake-ups, Signal wakes an arbitrary waiter); sequential consistency at seam granularity.",
    tech="deterministic simulation: seeded scheduler over substituted sync/math-rand, counting oracle + deadlock detection"),
+ "C10": dict(cat="exploration", ref="3 (C10), 2.2",
+   text="Seeded schedule search over the real par.Cache code: every sync.Map / atomic / Mutex operation of 2-5 client goroutines is a scheduler decision; oracle = f invoked once per key, every Do returns that invocation's value and only after it completed, Get never waits on a mutex and returns nil or that value (and the value once some Do returned). Sampling, not enumeration.",
+   note="Sequentially consistent interleavings only: the hardware/compiler memory-model half of 'safe publication' is not observable and not claimed. Trusted: scheduler, simulated Mutex, yield-wrapped sync.Map and atomics.",
+   tech="deterministic simulation: seeded scheduler over substituted sync/atomic, counting + ordering oracle"),
+ "C05": dict(cat="exploration", ref="3 (C05)",
+   text="Seeded histories (Put/PutBytes/Get/GetBytes/GetFile/OutputFile) over a small id space with damage at rest injected between operations (truncate, extend, flip, delete, replace, 12 kinds of nearly valid index entries), checked step by step against a reference map: undamaged entries read back exactly; whatever the disk state, GetBytes is not-found or hash-valid, GetFile not-found or size-valid, nothing panics; a Put of the same content repairs a damaged output.",
+   note="Single task, no I/O faults (C11/C12 cover those). Any lookup error counts as not-found. File system is the real kernel's in a private directory.",
+   tech="deterministic simulation: seeded operation/damage histories against a reference map (fault = damage at rest)"),
+ "C13": dict(cat="exploration", ref="3 (C13)",
+   text="Seeded histories on a simulated clock (time.Now in cache and all file mtimes are simulated): Put, lookups, clock advances biased to the 24h / 5d / 5d+1h thresholds with jitter, backward clock jumps, Trim, trim-record rewrites (recent/old/future/garbage/empty/missing), foreign files, directly aged files, and model-guided macro steps that place a Trim just before/after a threshold of a chosen entry. Reference retention model: entries used within 5d survive byte-identical; foreign files untouched; nothing removed and record unchanged when a trim completed <24h ago; when due, everything unused for >5d+1h is gone and the record holds the trim time.",
+   note="Get counts as a use of the index file only (its doc says so); future-dated trim records are don't-care for the due/not-due clauses; whole-second clock.",
+   tech="deterministic simulation: simulated clock and mtimes, seeded histories against a reference retention model"),
 }
 na = {
  "C02": "pure function of the line text and the assignment history: no schedule, clock, fault or second party for a simulator to own",
